@@ -186,7 +186,7 @@ def render(node: dict, rec: bool = False) -> str:
     elif k == "false":
         s = "False"
     elif k == "name":
-        s = {1: "x", 2: "y", 3: "c", 4: "g"}[node["a"]]
+        s = {1: "x", 2: "y", 3: "c", 4: "g", 5: "id"}[node["a"]]
     elif k == "not":
         s = "not " + sub(0)
     elif k == "neg":
@@ -296,7 +296,7 @@ def make_cases(exprs: List[list], rng: random.Random, envs_per_expr: int = 0) ->
         if envs_per_expr and len(es) > envs_per_expr:
             es = rng.sample(es, envs_per_expr)
         for x, y in es:
-            cases.append({"cid": len(cases) + 1, "expr": e, "env": [V(*x), V(*y), V(*C_VALUE), V(*G_VALUE)]})
+            cases.append({"cid": len(cases) + 1, "expr": e, "env": [V(*x), V(*y), V(*C_VALUE), V(*G_VALUE), V("none", 0, [])]})
     return cases
 
 
@@ -340,7 +340,7 @@ class ExprModule:
             self.text[key] = txt
             n = len(self.fn) + 1
             self.fn[key] = "f{}".format(n)
-            lines.append("def make{}(c):".format(n))
+            lines.append("def make{}(c, id=None):".format(n))   # id: named like a builtin, bound to None
             lines.append("    @icontract.{}(lambda x, y: {})".format(deco, txt))
             lines.append("    {}def f(x, y, z='zed'):".format(prefix))
             lines.append("        return 1")
@@ -707,6 +707,24 @@ def fam_typeof(rng: random.Random) -> List[list]:
     return out
 
 
+def fam_builtin_named() -> List[list]:
+    """A variable of the condition named like a builtin (``id``) and bound to None, behind the usual guards."""
+    i, x = [_nd("name", 5)], [_nd("name", 1)]
+    i0, i2 = [_nd("int", 0)], [_nd("int", 2)]
+    guards = [i, [_nd("not")] + [_nd("isnone")] + i, [_nd("isnone")] + i, [_nd("not")] + i, [_nd("eq")] + i + [_nd("none")]]
+    uses = [[_nd("lt")] + i0 + i, [_nd("lt")] + i + i2, [_nd("lt")] + i0 + [_nd("first")] + i, [_nd("lt")] + [_nd("len")] + i + i2,
+            [_nd("lt")] + [_nd("attr")] + i + i2, [_nd("lt")] + i0 + [_nd("add")] + i + i2, [_nd("in")] + i2 + i]
+    out = [[_nd("not")] + [_nd("isnone")] + i, i, [_nd("and")] + x + i, [_nd("ident")] + i, [_nd("eq")] + i + x,
+           [_nd("not")] + [_nd("ident")] + [_nd("isnone")] + i]
+    for g in guards:
+        for u in uses:
+            out.append([_nd("and")] + g + u)
+            out.append([_nd("or")] + g + u)
+            out.append([_nd("ifexp")] + g + u + [_nd("false")])
+            out.append([_nd("and3")] + x + g + u)
+    return out
+
+
 def fam_guards(rng: random.Random, budget: int) -> List[list]:
     """Guard patterns: later operands are defined only if earlier ones hold (the documented recipes)."""
     x, y = [_nd("name", 1)], [_nd("name", 2)]
@@ -817,7 +835,7 @@ class LayoutModule:
         self.MyError = MyError
         self.ns = {"ident": self._ident, "digits": _digits, "foreign": foreign, "run": run, "MyError": MyError, "MY_REPR": my_repr,
                    "__name__": "icv_layout", "definitely": "a description", "classy_error": MyError,
-                   "default_of": (lambda v: v), "c": 5, "g": [7]}
+                   "default_of": (lambda v: v), "c": 5, "g": [7], "id": None}
         import warnings
         with warnings.catch_warnings():
             warnings.simplefilter("ignore")
